@@ -80,6 +80,30 @@ Proof.
 Qed.
 Print Assumptions c06_shownet_stale_free_partial.
 
+(* the guard, syntactically: `sn_syn d st` is a boolean over the datagram's own fields, in the handler's test
+   order (n <= 6; type; indexBlock[0] received and >= 11; indexBlock[1] received; enc_len >= 1 and netSlot <> 0;
+   not beyond the lenient bound n + 1255; slotSize <> 0; a handler exists; 47 + data_offset + enc_len <= n).
+   It implies sn_within; conversely sn_within implies its header part `sn_hdr` (all of the above except the
+   last conjunct).  The gap between the two is the data stage only: an RLE stream that stops early, or a
+   SetRange that clamps its copy, may leave the unreceived part of a claimed block unread. *)
+Theorem c06_shownet_guard_syntactic : forall d st,
+  bytes_ok d = true -> len d <= 1316 ->
+  (sn_syn d st = true -> sn_within d st = true) /\ (sn_within d st = true -> sn_hdr d st = true).
+Proof. intros d st Hb Hn. split; [apply sn_syn_within|apply sn_within_hdr]; auto. Qed.
+Print Assumptions c06_shownet_guard_syntactic.
+
+Theorem c06_shownet_syntactic_partial : forall d t1 t2 st,
+  bytes_ok d = true -> len d <= 1316 -> sn_syn d st = true ->
+  run (d ++ t1) (shownet_handle (len d) st) <> Hazard Oob /\
+  run (d ++ t1) (shownet_handle (len d) st) = run (d ++ t2) (shownet_handle (len d) st).
+Proof.
+  intros d t1 t2 st Hb Hn Hs. pose proof (sn_syn_within d st Hb Hn Hs) as H.
+  unfold sn_within, completes in H.
+  destruct (run d (shownet_handle (len d) st)) as [a|h] eqn:E; [|discriminate].
+  rewrite (run_app_mono _ _ t1 _ E), (run_app_mono _ _ t2 _ E). split; [discriminate|reflexivity].
+Qed.
+Print Assumptions c06_shownet_syntactic_partial.
+
 (* the handler with the proposed fix (fixes-needing-test-edit/01): all clauses, every datagram *)
 Theorem c06_shownet_proposedfix_safe : forall buf n st h,
   bytes_ok buf = true -> len buf = 1316 -> n <= len buf ->
@@ -110,6 +134,9 @@ Example ex_shownet_handled :
 Proof. vm_compute. split; reflexivity. Qed.
 Example ex_shownet_outside : sn_within sn_short [(0, None)] = false /\ sn_within sn_over [(0, None)] = false.
 Proof. vm_compute. split; reflexivity. Qed.
+Example ex_shownet_syn : sn_syn sn_good [(0, None)] = true /\ sn_syn sn_short [(0, None)] = false /\
+  sn_hdr sn_short [(0, None)] = true /\ sn_syn sn_over [(0, None)] = false.
+Proof. vm_compute. repeat split; reflexivity. Qed.
 
 (* ---------------------------------------------------------------- E1.31 / ACN
    Receive buffer: IncomingUDPTransport::m_recv_buffer (1472 bytes).  n = bytes received, hs = the universe
@@ -159,6 +186,18 @@ Example ex_acn_discovery_handled :
   run ([0; 16; 0; 0; 65; 83; 67; 45; 69; 49; 46; 49; 55; 0; 0; 0; 112; 105; 0; 0; 0; 4; 18; 18; 18; 18; 18; 18; 18; 18; 18; 18; 18; 18; 18; 18; 18; 2; 112; 83; 0; 0; 0; 4; 115; 111; 117; 114; 99; 101; 0; 0; 0; 0; 0; 0; 0; 0; 0; 0; 0; 0; 0; 0; 0; 0; 0; 0; 0; 0; 0; 0; 0; 0; 0; 0; 0; 0; 0; 0; 0; 0; 0; 0; 0; 0; 0; 0; 0; 0; 0; 0; 0; 0; 0; 0; 0; 0; 0; 0; 0; 0; 0; 0; 0; 0; 0; 0; 50; 0; 0; 179; 0; 0; 1; 0; 0; 1; 2; 0; 3] ++ repeat 165 1351)
       (acn_handle false 121 [])
   = Done ([], [EvPage [18; 18; 18; 18; 18; 18; 18; 18; 18; 18; 18; 18; 18; 18; 18; 2] 0 0 [258; 3]]).
+Proof. vm_compute. reflexivity. Qed.
+
+(* the E1.33 (RPT) and LLRP header decoders accept a well-formed packet (they are added to the root inflator by the
+   harness; olad's E131Node does not register them) *)
+Definition acn_e133_pkt : list N := [0; 16; 0; 0; 65; 83; 67; 45; 69; 49; 46; 49; 55; 0; 0; 0; 112; 105; 0; 0; 0; 5; 17; 17; 17; 17; 17; 17; 17; 17; 17; 17; 17; 17; 17; 17; 17; 1; 112; 83; 0; 0; 0; 1; 114; 112; 116; 45; 115; 111; 117; 114; 99; 101; 0; 0; 0; 0; 0; 0; 0; 0; 0; 0; 0; 0; 0; 0; 0; 0; 0; 0; 0; 0; 0; 0; 0; 0; 0; 0; 0; 0; 0; 0; 0; 0; 0; 0; 0; 0; 0; 0; 0; 0; 0; 0; 0; 0; 0; 0; 0; 0; 0; 0; 0; 0; 0; 0; 215; 33; 13; 255; 127; 131; 0; 112; 6; 204; 130; 183; 14].
+Example ex_acn_e133 : match run (acn_e133_pkt ++ repeat 165 1351) (acn_handle false 121 []) with
+  | Done (_, [EvRdm133 _ _ d]) => d = [130; 183; 14] | _ => False end.
+Proof. vm_compute. reflexivity. Qed.
+
+Definition acn_llrp_pkt : list N := [0; 16; 0; 0; 65; 83; 67; 45; 69; 49; 46; 49; 55; 0; 0; 0; 112; 54; 0; 0; 0; 10; 17; 17; 17; 17; 17; 17; 17; 17; 17; 17; 17; 17; 17; 17; 17; 1; 112; 32; 0; 0; 0; 3; 19; 19; 19; 19; 19; 19; 19; 19; 19; 19; 19; 19; 19; 19; 19; 3; 63; 31; 101; 168; 112; 6; 204; 26; 80; 57].
+Example ex_acn_llrp : match run (acn_llrp_pkt ++ repeat 165 1402) (acn_handle false 70 []) with
+  | Done (_, [EvLlrp _ _ d]) => d = [26; 80; 57] | _ => False end.
 Proof. vm_compute. reflexivity. Qed.
 
 (* ---------------------------------------------------------------- Art-Net
